@@ -11,6 +11,8 @@
  *                                            of chunk number ci, and bursts of 1 and 2 failures, the whole stream is
  *                                            replayed with that allocation failing; results that differ from the
  *                                            fault-free one are printed
+ *         O F <nfds> <fd chunk> <ci> <hex stream> <c1,...|->   as O, with nfds descriptors attached (SCM_RIGHTS) to the
+ *                                            given chunk (the stream negotiates descriptor passing)
  * stdout: {"auth":0|1,"connected":0|1,"msgs":[...],"local_disconnected":0|1}
  *         O: {"k":"O","n_alloc":N,"runs":R,"fired":F,"ref":{...},"bad":[{"k":k,"nf":n,"out":{...}},...]}
  */
@@ -31,6 +33,7 @@ static char *msgbuf;
 static size_t msglen;
 static FILE *msgf;
 static int blocking_mode;
+static int send_fds_n, send_fds_ci = -1;     /* 'OF' lines: attach this many descriptors to chunk number send_fds_ci */
 
 static DBusHandlerResult
 filter (DBusConnection *c, DBusMessage *m, void *data)
@@ -131,6 +134,21 @@ do_stream (const char *path, const unsigned char *buf, long n, const char *chunk
           if (take > n - off) take = n - off;
           if (take <= 0) take = 1;
         }
+      if (send_fds_n > 0 && ci == send_fds_ci)
+        {
+          /* the descriptors travel with the first byte of this chunk (SCM_RIGHTS) */
+          struct msghdr mh; struct iovec iov; char cbuf[CMSG_SPACE (sizeof (int) * 8)]; struct cmsghdr *cm;
+          int fds[8], i, n = send_fds_n > 8 ? 8 : send_fds_n;
+          for (i = 0; i < n; i++) fds[i] = open ("/dev/null", O_RDONLY | O_CLOEXEC);
+          memset (&mh, 0, sizeof mh); memset (cbuf, 0, sizeof cbuf);
+          iov.iov_base = (void *) (buf + off); iov.iov_len = (size_t) take;
+          mh.msg_iov = &iov; mh.msg_iovlen = 1; mh.msg_control = cbuf; mh.msg_controllen = CMSG_SPACE (sizeof (int) * n);
+          cm = CMSG_FIRSTHDR (&mh); cm->cmsg_level = SOL_SOCKET; cm->cmsg_type = SCM_RIGHTS; cm->cmsg_len = CMSG_LEN (sizeof (int) * n);
+          memcpy (CMSG_DATA (cm), fds, sizeof (int) * n);
+          w = sendmsg (fd, &mh, MSG_NOSIGNAL);
+          for (i = 0; i < n; i++) close (fds[i]);
+        }
+      else
       w = send (fd, buf + off, (size_t) take, MSG_NOSIGNAL);
       if (w < 0)
         {
@@ -208,6 +226,15 @@ int main (void)
         {
           mode = p[0];
           p += 2;
+          send_fds_n = 0; send_fds_ci = -1;
+          if (mode == 'O' && p[0] == 'F' && p[1] == ' ')
+            {
+              /* O F <nfds> <fd chunk> <ci> <hex> <chunks> */
+              p += 2;
+              send_fds_n = (int) strtol (p, &p, 10);
+              send_fds_ci = (int) strtol (p, &p, 10);
+              while (*p == ' ') p++;
+            }
           if (mode == 'O') { arm_ci = (int) strtol (p, &p, 10); while (*p == ' ') p++; }
         }
       sp = strchr (p, ' ');
